@@ -1,6 +1,6 @@
 SPECIFICATION Spec
 CONSTANTS
-  Kinds = {"list", "dict", "set", "object", "array", "array-shape", "file-any", "file-copy"}
+  Kinds = {"list", "dict", "set", "object", "array", "array-shape", "file-any", "file-copy", "tuple-list", "tuple-dict", "tuple-array", "dict-list"}
   Workers = {"debug", "cf"}
 INVARIANT MutationReported
 INVARIANT NoFalseReport
